@@ -11,8 +11,9 @@ use std::collections::{HashSet, VecDeque};
 use std::io;
 use std::net::SocketAddr;
 use std::pin::Pin;
+use std::sync::atomic::{AtomicBool, Ordering};
 use std::sync::{Arc, Mutex};
-use std::task::{Context, Poll};
+use std::task::{Context, Poll, Wake, Waker};
 use std::time::Duration;
 
 use futures_util::stream::{Stream, StreamExt};
@@ -37,6 +38,31 @@ enum In {
 #[derive(Default)]
 struct Inbound {
     q: VecDeque<In>,
+    waker: Option<Waker>, // registered when the stream had nothing to yield, like a socket would
+}
+
+impl Inbound {
+    fn push(&mut self, item: In) {
+        self.q.push_back(item);
+        if let Some(w) = self.waker.take() {
+            w.wake();
+        }
+    }
+}
+
+/// The waker of the "task" that runs the multiplexer: the driver polls the multiplexer exactly
+/// when this flag is set (new inbound data after the stream was pending, an expired timer, the
+/// multiplexer waking itself) or when a request is handed to it -- never otherwise.  A
+/// multiplexer that goes to rest with work left undone is thereby observed as it would behave
+/// under a real executor.
+struct WakeFlag(AtomicBool);
+impl Wake for WakeFlag {
+    fn wake(self: Arc<Self>) {
+        self.0.store(true, Ordering::SeqCst);
+    }
+    fn wake_by_ref(self: &Arc<Self>) {
+        self.0.store(true, Ordering::SeqCst);
+    }
 }
 
 struct ScriptedStream {
@@ -46,9 +72,13 @@ struct ScriptedStream {
 
 impl Stream for ScriptedStream {
     type Item = Result<SerialMessage, NetError>;
-    fn poll_next(self: Pin<&mut Self>, _cx: &mut Context<'_>) -> Poll<Option<Self::Item>> {
-        match self.inb.lock().unwrap().q.pop_front() {
-            None => Poll::Pending,
+    fn poll_next(self: Pin<&mut Self>, cx: &mut Context<'_>) -> Poll<Option<Self::Item>> {
+        let mut inb = self.inb.lock().unwrap();
+        match inb.q.pop_front() {
+            None => {
+                inb.waker = Some(cx.waker().clone());
+                Poll::Pending
+            }
             Some(In::Msg(b)) => Poll::Ready(Some(Ok(SerialMessage::new(b, self.addr)))),
             Some(In::Err) => Poll::Ready(Some(Err(NetError::from(io::Error::new(io::ErrorKind::ConnectionReset, "scripted reset"))))),
             Some(In::Eof) => Poll::Ready(None),
@@ -72,6 +102,8 @@ pub struct MuxRun {
     pub used_ids: Vec<u16>,
     pub id_reused: bool,
     ended: bool,
+    woken: Arc<WakeFlag>,
+    pub mux_polls: usize,
     pub events: Vec<Value>,
     pub ntag: u32,
 }
@@ -87,7 +119,7 @@ impl MuxRun {
         let mux = DnsMultiplexer::new(ScriptedStream { inb: inb.clone(), addr }, handle)
             .with_timeout(Duration::from_millis(timeout_ms))
             .with_max_active_requests(cap);
-        MuxRun {
+        let mut run = MuxRun {
             mux,
             out_rx,
             inb,
@@ -96,22 +128,41 @@ impl MuxRun {
             used_ids: Vec::new(),
             id_reused: false,
             ended: false,
+            woken: Arc::new(WakeFlag(AtomicBool::new(false))),
+            mux_polls: 0,
             events: vec![json!({"ev": "reset", "case": case, "mode": "mux", "n": n})],
             ntag: 0,
-        }
+        };
+        // the background task polls the stream once when it is spawned
+        run.run_mux(true);
+        run
     }
 
-    /// polls the multiplexer once, then every live receiver until pending
-    fn observe(&mut self) -> (Value, bool) {
-        let waker = noop_waker();
+    /// runs the multiplexer's task: polls it while it has been woken (`force`: at least once)
+    fn run_mux(&mut self, force: bool) {
+        let waker = Waker::from(self.woken.clone());
         let mut cx = Context::from_waker(&waker);
-        if !self.ended {
+        let mut first = force;
+        let mut guard = 0;
+        while !self.ended && (first || self.woken.0.swap(false, Ordering::SeqCst)) && guard < 10_000 {
+            first = false;
+            guard += 1;
+            self.woken.0.store(false, Ordering::SeqCst);
+            self.mux_polls += 1;
             match Pin::new(&mut self.mux).poll_next(&mut cx) {
                 Poll::Pending => {}
-                Poll::Ready(Some(_)) => {}
+                // "ready to send": a task would poll again straight away
+                Poll::Ready(Some(_)) => self.woken.0.store(true, Ordering::SeqCst),
                 Poll::Ready(None) => self.ended = true,
             }
         }
+    }
+
+    /// runs the multiplexer's task if it was woken, then polls every live receiver until pending
+    fn observe(&mut self) -> (Value, bool) {
+        self.run_mux(false);
+        let waker = noop_waker();
+        let mut cx = Context::from_waker(&waker);
         let mut obs = Vec::new();
         for (i, slot) in self.rx.iter_mut().enumerate() {
             let mut dead = false;
@@ -120,7 +171,7 @@ impl MuxRun {
                     match rs.poll_next_unpin(&mut cx) {
                         Poll::Pending => break,
                         Poll::Ready(Some(Ok(resp))) => {
-                            obs.push(json!({"r": i + 1, "k": "ok", "tag": wire::tag_of(resp.as_buffer()), "rid": resp.id}));
+                            obs.push(json!({"r": i + 1, "k": "ok", "tag": wire::tag_of_response(&resp), "rid": resp.id}));
                         }
                         Poll::Ready(Some(Err(e))) => {
                             obs.push(json!({"r": i + 1, "k": "err", "tag": 0, "rid": 0, "why": e.to_string()}));
@@ -164,6 +215,13 @@ impl MuxRun {
         opts.use_edns = r % 2 == 0;
         let name = Name::from_ascii(format!("host{r}.example.test.")).unwrap();
         let req = DnsRequest::from_query(Query::new(name, RecordType::A), opts);
+        // DnsExchangeBackground polls the stream, hands the request over, and polls again
+        self.run_mux(true);
+        if self.ended {
+            // the connection turned out to have ended: the request cannot be handed over
+            // (send_message documents a panic); only what the poll did is recorded
+            return self.finish_event(json!({"ev": "poll"}), poll);
+        }
         let rs = self.mux.send_message(req);
         self.rx[r - 1] = Some(rs);
         let waker = noop_waker();
@@ -180,6 +238,7 @@ impl MuxRun {
             self.used_ids.push(id);
         }
         self.wid[r - 1] = id;
+        self.run_mux(true);
         self.finish_event(json!({"ev": "send", "r": r, "w": id.is_some(), "id": id.unwrap_or(0), "msgs": on_wire.len()}), poll)
     }
 
@@ -188,7 +247,7 @@ impl MuxRun {
         let tag = self.ntag;
         let q = Question { name: vec![b"host".to_vec(), b"example".to_vec(), b"test".to_vec()], qtype: 1, qclass: 1 };
         let bytes = wire::build_response(id, std::slice::from_ref(&q), &q.name, tag);
-        self.inb.lock().unwrap().q.push_back(In::Msg(bytes));
+        self.inb.lock().unwrap().push(In::Msg(bytes));
         self.finish_event(json!({"ev": "deliver", "id": id, "tag": tag}), poll)
     }
 
@@ -199,7 +258,7 @@ impl MuxRun {
             1 => vec![0xab, 0xcd, 0x81, 0x80, 0, 1, 0, 0, 0, 0, 0, 0, 9, b'x'],
             _ => vec![],
         };
-        self.inb.lock().unwrap().q.push_back(In::Msg(bytes));
+        self.inb.lock().unwrap().push(In::Msg(bytes));
         self.finish_event(json!({"ev": "garbage", "tag": self.ntag}), poll)
     }
 
@@ -214,8 +273,13 @@ impl MuxRun {
     }
 
     pub fn close(&mut self, how: &str, poll: bool) -> Value {
-        self.inb.lock().unwrap().q.push_back(if how == "eof" { In::Eof } else { In::Err });
+        self.inb.lock().unwrap().push(if how == "eof" { In::Eof } else { In::Err });
         self.finish_event(json!({"ev": "close", "how": how}), poll)
+    }
+
+    /// the multiplexer's stream has ended (nothing can be sent or delivered any more)
+    pub fn ended(&self) -> bool {
+        self.ended
     }
 
     pub fn is_live(&self, r: usize) -> bool {
@@ -263,6 +327,12 @@ pub async fn replay_one(ln: usize, c: &Value, trace: &mut dyn io::Write, out: &m
         for step in log {
             let op = step["op"].as_str().unwrap();
             let r = step["r"].as_u64().unwrap() as usize;
+            if run.ended() {
+                // the real multiplexer has ended the connection earlier than the reference
+                // behaviour: the rest of the schedule cannot be realised
+                observed.push(json!([]));
+                continue;
+            }
             let obs = match op {
                 "send" => run.send(r, true),
                 "deliver" => match run.wid[r - 1] {
@@ -280,6 +350,9 @@ pub async fn replay_one(ln: usize, c: &Value, trace: &mut dyn io::Write, out: &m
                     run.deliver(u, true)
                 }
                 "garbage" => run.garbage(ln as u8, true),
+                // a receiver that has already ended cannot be cancelled any more (only possible when
+                // the run has left the reference behaviour): the step is a no-op
+                "cancel" if !run.is_live(r) => json!([]),
                 "cancel" => run.cancel(r, true),
                 "tick" => run.advance(TICK_MS, true).await,
                 "close" => run.close(step["how"].as_str().unwrap(), true),
@@ -334,6 +407,9 @@ pub async fn record(seed: u64, n_cases: usize, max_reqs: usize, steps: usize, tr
             // a step is a batch of 1..4 actions followed by one poll
             let batch = if rng.random_bool(0.6) { 1 } else { rng.random_range(2..=4) };
             for b in 0..batch {
+                if run.ended() {
+                    break;
+                }
                 let poll = b + 1 == batch;
                 // live = sent, receiver still held
                 let live: Vec<usize> = (1..=sent).filter(|r| run.is_live(*r)).collect();
@@ -387,7 +463,7 @@ pub async fn record(seed: u64, n_cases: usize, max_reqs: usize, steps: usize, tr
                 }
             }
         }
-        if rng.random_bool(0.7) {
+        if rng.random_bool(0.7) && !run.ended() {
             let how = if rng.random_bool(0.5) { "eof" } else { "err" };
             run.close(how, true);
             closed = true;
@@ -406,8 +482,26 @@ pub async fn record(seed: u64, n_cases: usize, max_reqs: usize, steps: usize, tr
 }
 
 // ---------------------------------------------------------------------------------------------
-// stress: very many requests in flight at once, so that a missing freshness check on the wire
-// ID becomes visible (birthday bound: ~1200 random 16-bit IDs collide with probability > 0.99)
+// special scenarios of the record direction
+//  ms: very many requests in flight at once, so that a missing freshness check on the wire ID
+//      becomes visible (birthday bound: 400 random 16-bit IDs collide with probability ~0.7)
+//  mb: a burst of responses that all carry the ID of one pending request (a response stream
+//      such as AXFR, or a duplicated response) arriving back to back
+//  mq: more than a hundred arrivals (unknown IDs, undecodable, duplicates) followed by the
+//      responses of the pending requests, all readable at once
+
+fn emit(run: &MuxRun, id: &str, kind: &str, n: usize, delivered: usize, trace: &mut dyn io::Write, out: &mut dyn io::Write) {
+    for e in &run.events {
+        writeln!(trace, "{e}").unwrap();
+    }
+    writeln!(
+        out,
+        "{}",
+        json!({"case": id, "scenario": kind, "events": run.events.len(), "n": n, "sent": n, "delivered": delivered,
+               "closed": true, "id_reused": run.id_reused, "mux_polls": run.mux_polls})
+    )
+    .unwrap();
+}
 
 pub async fn stress(seed: u64, n_cases: usize, n_reqs: usize, trace: &mut dyn io::Write, out: &mut dyn io::Write) {
     let mut rng = StdRng::seed_from_u64(seed ^ 0x16_55);
@@ -415,7 +509,6 @@ pub async fn stress(seed: u64, n_cases: usize, n_reqs: usize, trace: &mut dyn io
         let id = format!("ms{seed}-{case}");
         let mut run = MuxRun::new(&json!(id), n_reqs, 65536, 5000);
         for r in 1..=n_reqs {
-            // poll only now and then: the ID must be fresh whether or not the multiplexer ran
             run.send(r, r % 97 == 0 || r == n_reqs);
         }
         let mut delivered = 0;
@@ -431,23 +524,74 @@ pub async fn stress(seed: u64, n_cases: usize, n_reqs: usize, trace: &mut dyn io
         let u = run.unused_id(&mut rng);
         run.deliver(u, true);
         run.close(if case % 2 == 0 { "eof" } else { "err" }, true);
-        for e in &run.events {
-            writeln!(trace, "{e}").unwrap();
+        emit(&run, &id, "many-in-flight", n_reqs, delivered, trace, out);
+    }
+}
+
+pub async fn bursts(seed: u64, n_cases: usize, trace: &mut dyn io::Write, out: &mut dyn io::Write) {
+    let mut rng = StdRng::seed_from_u64(seed ^ 0x16_bb);
+    for case in 0..n_cases {
+        // ---- mb: k responses with the ID of one pending request in one batch
+        let id = format!("mb{seed}-{case}");
+        let n = 3;
+        let mut run = MuxRun::new(&json!(id), n, 32, 5000);
+        for r in 1..=n {
+            run.send(r, true);
         }
-        writeln!(
-            out,
-            "{}",
-            json!({"case": id, "events": run.events.len(), "n": n_reqs, "cap": 65536, "sent": n_reqs, "delivered": delivered,
-                   "closed": true, "id_reused": run.id_reused})
-        )
-        .unwrap();
+        let target = rng.random_range(1..=n);
+        let k = [2usize, 5, 9, 10, 12, 20, 40][case % 7];
+        let w = run.wid[target - 1].expect("wire id");
+        for i in 0..k {
+            run.deliver(w, i + 1 == k);
+        }
+        let other = target % n + 1;
+        let w2 = run.wid[other - 1].expect("wire id");
+        run.deliver(w2, true);
+        run.close("eof", true);
+        emit(&run, &id, &format!("same-id-burst-{k}"), n, k + 1, trace, out);
+
+        // ---- mq: f arrivals that are for nobody, then one response per pending request, one batch
+        let id = format!("mq{seed}-{case}");
+        let n = 4;
+        let mut run = MuxRun::new(&json!(id), n, 32, 5000);
+        for r in 1..=n {
+            run.send(r, true);
+        }
+        let f = [20usize, 60, 95, 96, 97, 100, 120, 150][case % 8];
+        for i in 0..f {
+            match i % 3 {
+                0 => {
+                    let u = run.unused_id(&mut rng);
+                    run.deliver(u, false);
+                }
+                1 => {
+                    run.garbage(i as u8, false);
+                }
+                _ => {
+                    let u = run.unused_id(&mut rng);
+                    run.deliver(u, false);
+                }
+            }
+        }
+        for r in 1..=n {
+            if run.ended() {
+                break;
+            }
+            let w = run.wid[r - 1].expect("wire id");
+            run.deliver(w, r == n);
+        }
+        if !run.ended() {
+            run.advance(100, true).await;
+            run.close("err", true);
+        }
+        emit(&run, &id, &format!("flood-{f}"), n, f + n, trace, out);
     }
 }
 
 // ---------------------------------------------------------------------------------------------
-// probe (observation only, no verdict): a burst of responses for one request that its receiver
-// does not drain in between
+// probes (observation only, no verdict)
 
+/// a burst of responses for one request whose receiver is not polled in between
 pub fn probe_backlog(burst: usize) -> Value {
     let mut run = MuxRun::new(&json!("probe"), 1, 32, 5000);
     run.send(1, true);
@@ -457,5 +601,77 @@ pub fn probe_backlog(burst: usize) -> Value {
     }
     let obs = run.deliver(w, true);
     let got = obs.as_array().unwrap().iter().filter(|o| o["k"] == "ok").count();
-    json!({"burst": burst, "received": got})
+    json!({"probe": "same-id-burst", "burst": burst, "received": got})
+}
+
+/// The same flood as scenario mq, but under tokio's own executor and through the public
+/// DnsExchange API (background task spawned, real wakers, paused clock): `n` requests in flight,
+/// `n` responses readable at once.  Reports how many requests were answered right away, and how
+/// they ended after the request timeout.
+pub async fn probe_flood_real(n: usize) -> Value {
+    use hickory_net::runtime::TokioRuntimeProvider;
+    use hickory_net::xfer::{DnsExchange, DnsHandle};
+    let addr: SocketAddr = "192.0.2.53:53".parse().unwrap();
+    let inb = Arc::new(Mutex::new(Inbound::default()));
+    let (handle, mut out_rx) = BufDnsStreamHandle::new(addr);
+    let mux = DnsMultiplexer::new(ScriptedStream { inb: inb.clone(), addr }, handle)
+        .with_timeout(Duration::from_millis(5000))
+        .with_max_active_requests(n + 10);
+    let (ex, bg) = DnsExchange::<TokioRuntimeProvider>::from_stream(mux);
+    let task = tokio::spawn(bg);
+    let mut rxs = Vec::new();
+    let mut ids = Vec::new();
+    for r in 0..n {
+        let name = Name::from_ascii(format!("host{r}.example.test.")).unwrap();
+        let mut opts = DnsRequestOptions::default();
+        opts.use_edns = false;
+        rxs.push(ex.send(DnsRequest::from_query(Query::new(name, RecordType::A), opts)));
+        // BufDnsStreamHandle holds 32 messages: drain as we go
+        tokio::task::yield_now().await;
+        while let Some(Some(m)) = futures_util::FutureExt::now_or_never(out_rx.next()) {
+            ids.push(wire::parse(m.bytes()).map(|p| p.id).unwrap_or(0));
+        }
+    }
+    tokio::time::sleep(Duration::from_millis(10)).await;
+    while let Some(Some(m)) = futures_util::FutureExt::now_or_never(out_rx.next()) {
+        ids.push(wire::parse(m.bytes()).map(|p| p.id).unwrap_or(0));
+    }
+    let q = Question { name: vec![b"host".to_vec()], qtype: 1, qclass: 1 };
+    {
+        let mut i = inb.lock().unwrap();
+        for (k, id) in ids.iter().enumerate() {
+            i.push(In::Msg(wire::build_response(*id, std::slice::from_ref(&q), &q.name, k as u32 + 1)));
+        }
+    }
+    tokio::time::sleep(Duration::from_millis(1000)).await;
+    let mut answered_1s = 0;
+    let mut state: Vec<&str> = vec!["pending"; rxs.len()];
+    for (k, rx) in rxs.iter_mut().enumerate() {
+        if let Some(item) = futures_util::FutureExt::now_or_never(rx.next()) {
+            match item {
+                Some(Ok(_)) => {
+                    answered_1s += 1;
+                    state[k] = "answered";
+                }
+                Some(Err(_)) => state[k] = "error",
+                None => state[k] = "ended",
+            }
+        }
+    }
+    tokio::time::sleep(Duration::from_millis(6000)).await;
+    let mut answered_late = 0;
+    let mut lost = 0;
+    for (k, rx) in rxs.iter_mut().enumerate() {
+        if state[k] != "pending" {
+            continue;
+        }
+        match futures_util::FutureExt::now_or_never(rx.next()) {
+            Some(Some(Ok(_))) => answered_late += 1,
+            _ => lost += 1,
+        }
+    }
+    task.abort();
+    json!({"probe": "flood-real-executor", "requests_in_flight": n, "on_wire": ids.len(), "responses_arrived_at_once": ids.len(),
+           "answered_within_1s": answered_1s, "answered_only_after_timeout_wakeup": answered_late,
+           "never_answered_although_response_arrived": lost})
 }
